@@ -109,6 +109,8 @@ TLoopEv ==
      /\ acked' = acked \cup carry /\ carry' = {}
      /\ UNCHANGED <<lastState, closedObs, mustAck>>
   \/ /\ IsEv("loop", "pub.locked") /\ lpc = "p.locked" /\ Confirm("loop")
+     \* resolves the guesses of the silent LoopPubResult: data of a registered subscription or not
+     /\ ((seq \in datas) <=> (E.ndata > 0 /\ E.known = 1))
      /\ mustAck' = IF E.ndata > 0 /\ E.known = 1 THEN mustAck \cup {<<E.sub, E.seq>>} ELSE mustAck
      /\ UNCHANGED <<lastState, closedObs, acked, carry>>
   \/ IsEv("loop", "sub.pause.send") /\ lpc = "ps.send" /\ Confirm("loop") /\ UNCHANGED obs
@@ -123,7 +125,7 @@ TMonEv ==
      /\ IF E.action = "transferSubscriptions" THEN mustAck' = {} /\ acked' = {} /\ carry' = {}
                                              ELSE UNCHANGED <<mustAck, acked, carry>>
      /\ UNCHANGED <<lastState, closedObs>>
-  \/ IsEv("mon", "mon.done") /\ mpc = "m.done" /\ activeSubs = E.id /\ Confirm("mon") /\ UNCHANGED obs
+  \/ IsEv("mon", "mon.done") /\ mpc = "m.done" /\ ((activeSubs > 0) <=> (E.id > 0)) /\ Confirm("mon") /\ UNCHANGED obs
   \/ IsEv("mon", "sub.resume.send") /\ mpc = "m.rsend" /\ Confirm("mon") /\ UNCHANGED obs
   \* a state report of the monitor goroutine: the model is in that state
   \/ /\ IsEv("mon", "state") /\ state = E.state
